@@ -32,7 +32,7 @@ TRUSTED = ["modelled not verified: dcgka.rs internals beyond 'who is sent which 
            "SecretBundle timestamps/latest (taken from the implementation's observation), MessageOrderer (only causal deliveries generated)"]
 RULE = ("quick: 200 random histories for 3-5 members: create, then add/remove/update by members, 55% sequential (each operation "
         "delivered to everyone before the next), 45% concurrent with random causal delivery orders, probes at quiescence; thorough: "
-        "2500 histories up to 6 members / 24 operations. non-trivial = at least one add and one remove, >= 3 secrets, a probe with "
+        "1500 histories up to 6 members / 24 operations. non-trivial = at least one add and one remove, >= 3 secrets, a probe with "
         ">= 3 welcomed members")
 COQ_SHARD = 60
 HARNESS_TIMEOUT = 1800
@@ -243,7 +243,7 @@ def gen(tier, rng):
     yield {"n": 4, "evs": ["c0:01", "q", "a0:2", "q", "a1:3", "q", "p", "r2:0", "q", "u3", "q", "p", "a1:0", "q", "p"]}
     yield {"n": 3, "evs": ["c0:1", "u1", "d1:0", "u1", "u0", "q", "p"]}                # member 2 never joins; op before welcome fails
     yield {"n": 4, "evs": ["c0:012", "q", "r0:1", "r2:1", "q", "p", "u1", "q", "p"]}   # double remove, removed member updates
-    for _ in range(200 if tier == "quick" else 2500):
+    for _ in range(200 if tier == "quick" else 1500):
         yield _one(rng, tier)
 
 
@@ -358,8 +358,9 @@ def nontrivial(case, impl):
 
 
 def known(case, impl):
-    """'concurrent-add-misses-secret' iff everything but P1 is as the knowledge model says and every
-    current member lacking the newest secret was added concurrently with its generation."""
+    """'concurrent-add-misses-secret' iff everything but P1 is as the knowledge model says, some add is
+    concurrent with the generation of the newest secret, and every current member lacking that secret
+    was added (concurrently or later) with a welcome bundle that did not contain it."""
     sim = Sim(case["n"])
     ps = _probes(impl)
     pi = 0
@@ -385,12 +386,20 @@ def known(case, impl):
         if not order:
             continue
         latest = order[-1]
-        for j in sim.members():
-            if latest in sim.knows[j]:
-                continue
-            adds = [k for k, m in enumerate(sim.msgs) if m["op"] == "a" and m["arg"] == j]
-            conc = [k for k in adds if latest not in sim.msgs[k]["past"] and k not in sim.msgs[latest]["past"]]
-            if not conc:
+        lacking = [j for j in sim.members() if latest not in sim.knows[j]]
+        if not lacking:
+            continue
+        # root cause: some add is concurrent with the operation that generated the newest secret
+        root = [k for k, m in enumerate(sim.msgs) if m["op"] == "a" and latest not in m["past"]
+                and k not in sim.msgs[latest]["past"]]
+        if not root:
+            return None
+        for j in lacking:
+            # j was (re-)added by a welcome without that secret, issued concurrently with or after its
+            # generation (directly concurrent, or by somebody who missed it through a concurrent add)
+            adds = [k for k, m in enumerate(sim.msgs) if m["op"] == "a" and m["arg"] == j
+                    and latest not in m["bundle"] and k not in sim.msgs[latest]["past"]]
+            if not adds:
                 return None
             hit = True
     return "concurrent-add-misses-secret" if hit else None
